@@ -1584,3 +1584,55 @@ VARIANTS += [
      why='no fresh object: state survives from one verification to the next'),
  _ct('ctor-returns-either-object', 'flagged(bound/counter)', fn='var theAttempts signatureAttempts\n\n' + _CT_FN_STEPS.replace('\treturn a\n', '\tif limit > 50 {\n\t\treturn &theAttempts\n\t}\n\treturn a\n')),
 ]
+
+# ---- seventh pass: guards disabled by a conjunct ------------------------------------------------------------------
+# class "the failure test on Verifier.Verify's error no longer covers every failure": the guard `if err != nil {` behind
+# the verification gets a conjunct, so a failed verification can fall through into the success region (flag set, outcome
+# stored, done sentinel returned). The success region must lie behind err == nil on EVERY way into it — the block that
+# follows the test having the passing edge as ONE of its predecessors is not enough.
+
+_VG_OLD = '\t\t\toutcome, err := verifier.Verify(ctx, artifactDescriptor, sigBlob, opts)\n\t\t\tif err != nil {\n'
+_VG_HEAD = '\t\t\toutcome, err := verifier.Verify(ctx, artifactDescriptor, sigBlob, opts)\n'
+_VG_FAIL = _CL_BODY_OLD[_CL_BODY_OLD.index('\t\t\t\tlogger.Warnf("Signature %v failed verification'):_CL_BODY_OLD.index('\t\t\t\tcontinue\n\t\t\t}\n') + len('\t\t\t\tcontinue\n')]
+_VG_SUCC = _CL_BODY_OLD[_CL_BODY_OLD.index('\t\t\t// at this point, the signature is verified successfully\n'):_CL_BODY_OLD.index('\t\t}\n', _CL_BODY_OLD.index('\t\t\treturn errDoneVerification\n'))]
+_VG_BLOCK = _VG_HEAD + '\t\t\tif err != nil {\n' + _VG_FAIL + '\t\t\t}\n' + _VG_SUCC
+_WM_VG_OLD = '\toutcome, err := a.verifier.Verify(ctx, a.artifactDescriptor, sigBlob, a.opts)\n\tif err != nil {\n'
+_CL_VG_OLD = '\t\toutcome, err := verifier.Verify(ctx, artifactDescriptor, sigBlob, opts)\n\t\tif err != nil {\n'
+
+def _vg(name, expect, new, **kw):
+    d = dict(name=name, file=N, expect=expect, find=_VG_OLD, replace=_VG_HEAD + new)
+    d.update(kw)
+    return d
+
+VARIANTS += [
+ _vg('verify-guard-false-conjunct', 'flagged(early-exit/flag-only-on-success)', '\t\t\tif false && (err != nil) {\n',
+     why='the guard mutant: a failed verification reaches `verificationSucceeded = true` through the false edge of the added conjunct'),
+ _vg('verify-guard-media-type-conjunct', 'flagged(early-exit/flag-only-on-success)', '\t\t\tif opts.SignatureMediaType != "" && err != nil {\n'),
+ _vg('verify-guard-outcome-conjunct', 'flagged(early-exit/)', '\t\t\tif outcome != nil && err != nil {\n',
+     why='a nil-dereference "fix": a failed verification without outcome counts as verified'),
+ _vg('verify-guard-conjunct-outcome-list', 'flagged(early-exit/outcome-of-that-signature)', '\t\t\tif len(verificationFailedErrorArray) > 1 && err != nil {\n'),
+ _vg('shape-verify-guard-operands-swapped', 'silent', '\t\t\tif nil != err {\n'),
+ _vg('shape-verify-guard-switch', 'silent', '\t\t\tswitch {\n\t\t\tcase err != nil:\n'),
+ _vg('shape-verify-guard-bool-local', 'silent', '\t\t\tfailed := err != nil\n\t\t\tif failed {\n'),
+ _vg('shape-verify-guard-double-negation', 'silent', '\t\t\tif !(err == nil) {\n'),
+ dict(name='shape-verify-guard-inverted', file=N, expect='silent', find=_VG_BLOCK,
+      replace=_VG_HEAD + '\t\t\tif err == nil {\n' + _VG_SUCC + '\t\t\t}\n' + _VG_FAIL.replace('\t\t\t\tcontinue\n', ''),
+      why='success region inside `if err == nil {…return}`; the failure bookkeeping falls to the end of the loop body'),
+ dict(name='shape-verify-guard-nested-in-outcome-test', file=N, expect='silent', find=_VG_BLOCK,
+      replace=_VG_HEAD + '\t\t\tif err != nil && outcome == nil {\n\t\t\t\treturn err\n\t\t\t}\n\t\t\tif err != nil {\n'
+              + _VG_FAIL.replace('\t\t\t\tif outcome == nil {\n\t\t\t\t\tlogger.Error("Got nil outcome. Expecting non-nil outcome on verification failure")\n\t\t\t\t\treturn err\n\t\t\t\t}\n', '')
+              + '\t\t\t}\n' + _VG_SUCC,
+      why='the nested `if err != nil { if outcome == nil {` flattened into `if err != nil && outcome == nil {…}; if err != nil {…}`'),
+ # the same guard in the per-signature worker shapes
+ _wm('worker-verify-guard-false-conjunct', 'flagged(early-exit/flag-only-on-success)', (_WM_VG_OLD, _WM_VG_OLD.replace('if err != nil {', 'if false && (err != nil) {'))),
+ _wm('worker-verify-guard-conjunct', 'flagged(early-exit/flag-only-on-success)', (_WM_VG_OLD, _WM_VG_OLD.replace('if err != nil {', 'if len(a.failures) > 1 && err != nil {'))),
+ _wm('shape-worker-verify-guard-swapped', 'silent', (_WM_VG_OLD, _WM_VG_OLD.replace('if err != nil {', 'if nil != err {'))),
+ _cs('worker-closure-verify-guard-false-conjunct', 'flagged(early-exit/flag-only-on-success)', (_CL_VG_OLD, _CL_VG_OLD.replace('if err != nil {', 'if false && (err != nil) {'))),
+ _vh('worker-verify-only-guard-false-conjunct', 'flagged(early-exit/flag-only-on-success)',
+     ('\t\toutcome, err := verifier.Verify(ctx, artifactDescriptor, sigBlob, opts)\n\t\tif err != nil {\n', '\t\toutcome, err := verifier.Verify(ctx, artifactDescriptor, sigBlob, opts)\n\t\tif false && (err != nil) {\n')),
+ _fv('worker-fv-guard-false-conjunct', 'flagged(early-exit/flag-only-on-success)',
+     ('sigManifestDesc)\n\t\t\tif err != nil {\n\t\t\t\tif outcome == nil {\n', 'sigManifestDesc)\n\t\t\tif false && (err != nil) {\n\t\t\t\tif outcome == nil {\n'),
+     why='Verify is called in a stateless worker that hands its results back; the weakened test is the one of the loop body on the worker\'s error'),
+ _fv('worker-fv-guard-conjunct', 'flagged(early-exit/flag-only-on-success)',
+     ('sigManifestDesc)\n\t\t\tif err != nil {\n\t\t\t\tif outcome == nil {\n', 'sigManifestDesc)\n\t\t\tif outcome != nil && err != nil {\n\t\t\t\tif outcome == nil {\n')),
+]
